@@ -142,12 +142,16 @@ fn gen_item(r: &mut Rng, p: &mut Pools) -> Option<Shape> {
         0 => Shape::Switch(named),
         1 => Shape::Flag(named, 1, 0),
         2 => Shape::ReqFlag(named, 1),
-        _ => Shape::Arg {
-            named,
-            metavar: *r.pick(&["A", "N", "VAL"][..]),
-            ty: *r.pick(&[Ty::Int, Ty::Int, Ty::Str, Ty::Os, Ty::Num][..]),
-            adjacent: false,
-        },
+        _ => {
+            // `ParseArgument::adjacent`: only `-sVAL`, `-s=VAL`, `--long=VAL` count
+            let adjacent = (!named.shorts.is_empty() || !named.longs.is_empty()) && r.chance(1, 10);
+            Shape::Arg {
+                named,
+                metavar: *r.pick(&["A", "N", "VAL"][..]),
+                ty: *r.pick(&[Ty::Int, Ty::Int, Ty::Str, Ty::Os, Ty::Num][..]),
+                adjacent,
+            }
+        }
     };
     let is_flag = !matches!(leaf, Shape::Arg { .. });
     let mut s = leaf;
@@ -195,9 +199,10 @@ fn gen_item(r: &mut Rng, p: &mut Pools) -> Option<Shape> {
 
 fn gen_level(r: &mut Rng, p: &mut Pools, depth: usize) -> Shape {
     let mut fields = Vec::new();
+    let mut extra: Vec<Shape> = Vec::new();
     let n = r.range(1, 3);
     for _ in 0..n {
-        let f = match r.below(12) {
+        let f = match r.below(13) {
             0 | 1 => {
                 // alternatives between items
                 let k = r.range(2, 3);
@@ -258,11 +263,33 @@ fn gen_level(r: &mut Rng, p: &mut Pools, depth: usize) -> Shape {
                     (_, b) => b,
                 }
             }
+            5 => {
+                // the `--color[=WHEN]` idiom: an adjacent-only argument and a switch that share
+                // their names; the bare spelling is the switch, the attached one the argument
+                match gen_named(r, p, 8) {
+                    Some(n) if !n.shorts.is_empty() || !n.longs.is_empty() => {
+                        let mut flag_names = n.clone();
+                        flag_names.envs.clear();
+                        extra.push(Shape::Switch(flag_names));
+                        Some(Shape::Wrap(
+                            W::Optional { catch: false },
+                            Box::new(Shape::Arg {
+                                named: n,
+                                metavar: "WHEN",
+                                ty: Ty::Str,
+                                adjacent: true,
+                            }),
+                        ))
+                    }
+                    other => other.map(Shape::Switch),
+                }
+            }
             _ => gen_item(r, p),
         };
         if let Some(f) = f {
             fields.push(f);
         }
+        fields.append(&mut extra);
     }
     if r.chance(1, 5) {
         fields.push(Shape::Pos {
@@ -397,6 +424,8 @@ pub struct Level {
 pub struct Index {
     pub items: Vec<Item>,
     pub levels: Vec<Level>,
+    /// short names of items below a `hide`: bpaf does not see them when it splits clusters
+    pub hidden_shorts: Vec<char>,
 }
 
 impl Index {
@@ -417,6 +446,7 @@ pub fn index(o: &Opts) -> Index {
     let mut ix = Index {
         items: Vec::new(),
         levels: Vec::new(),
+        hidden_shorts: Vec::new(),
     };
     let mut counter = 0usize;
     ix.levels.push(Level {
@@ -428,6 +458,25 @@ pub fn index(o: &Opts) -> Index {
         odd_context: false,
     });
     visit(&o.root, 0, Ctx::Simple, &mut Vec::new(), &mut counter, &mut ix);
+    fn hidden(s: &Shape, under_hide: bool, out: &mut Vec<char>) {
+        match s {
+            Shape::Wrap(w, inner) => hidden(inner, under_hide || matches!(w, W::Hide), out),
+            Shape::Seq(xs, _) | Shape::Alt(xs) => {
+                for x in xs {
+                    hidden(x, under_hide, out)
+                }
+            }
+            Shape::Cmd { opts, .. } => hidden(&opts.root, under_hide, out),
+            other => {
+                if under_hide {
+                    if let Some(n) = other.named() {
+                        out.extend(n.shorts.iter().copied());
+                    }
+                }
+            }
+        }
+    }
+    hidden(&o.root, false, &mut ix.hidden_shorts);
     ix
 }
 
@@ -638,6 +687,10 @@ pub struct LineInfo {
     pub level_start: BTreeMap<usize, usize>,
     /// (item id, first token index, one past its last token) for every occurrence
     pub spans: Vec<(usize, usize, usize)>,
+    /// clusters of short flags understood on the line
+    pub clusters: usize,
+    /// the line has a `--`; everything behind it is positional
+    pub double_dash: bool,
 }
 
 fn spellings(n: &Named) -> (Vec<Vec<u8>>, Vec<Vec<u8>>) {
@@ -668,7 +721,16 @@ pub fn scan(ix: &Index, argv: &[Tok]) -> Option<LineInfo> {
         if ix.levels[level].help_tokens.iter().any(|h| h == tok) {
             return None;
         }
-        if tok == b"--" || tok.is_empty() || tok.starts_with(b"--bpaf-") {
+        if tok == b"--" {
+            // everything behind it is positional: understood only if this level takes
+            // positionals and nothing behind it could be a command
+            if !ix.levels[level].has_positional || i + 1 == argv.len() {
+                return None;
+            }
+            info.double_dash = true;
+            break;
+        }
+        if tok.is_empty() || tok.starts_with(b"--bpaf-") {
             return None;
         }
         if tok[0] == b'-' {
@@ -713,20 +775,78 @@ pub fn scan(ix: &Index, argv: &[Tok]) -> Option<LineInfo> {
                     }
                 }
                 if hit.is_some() {
-                    // names must be unambiguous within the level
-                    let dup = ix
+                    // names must be unambiguous within the level - except for the pairing of
+                    // an adjacent-only argument with a flag of the same names, where the
+                    // spelling decides: attached value = the argument, bare = the flag
+                    let others: Vec<&Item> = ix
                         .items
                         .iter()
                         .filter(|o| o.level == level && o.id != it.id)
-                        .any(|o| {
+                        .filter(|o| {
                             o.named.shorts.iter().any(|c| it.named.shorts.contains(c))
                                 || o.named.longs.iter().any(|l| it.named.longs.contains(l))
-                        });
-                    if dup {
-                        return None;
+                        })
+                        .collect();
+                    match others.len() {
+                        0 => {}
+                        1 => {
+                            let o = others[0];
+                            let (arg, flag) = if it.adjacent_arg && o.is_flag {
+                                (it, o)
+                            } else if o.adjacent_arg && it.is_flag {
+                                (o, it)
+                            } else {
+                                return None;
+                            };
+                            let attached = hit.as_ref().unwrap().1.clone();
+                            hit = Some(if attached.is_some() {
+                                (arg, attached)
+                            } else {
+                                (flag, None)
+                            });
+                        }
+                        _ => return None,
                     }
                     break;
                 }
+            }
+            if hit.is_none() && !tok.starts_with(b"--") && tok.len() > 2 && !tok.contains(&b'=') {
+                // a cluster: every letter a short flag of this level (and of no enclosing one)
+                let text = std::str::from_utf8(&tok[1..]).ok()?;
+                let mut members: Vec<usize> = Vec::new();
+                for c in text.chars() {
+                    // bpaf splits a cluster by looking at the short names of the WHOLE
+                    // definition: a letter that is an argument's name anywhere changes how the
+                    // word is read (value attached, or an ambiguity error)
+                    if ix.items.iter().any(|o| !o.is_flag && o.named.shorts.contains(&c))
+                        || ix.hidden_shorts.contains(&c)
+                    {
+                        return None;
+                    }
+                    let mut owners = ix
+                        .items
+                        .iter()
+                        .filter(|o| o.named.shorts.contains(&c))
+                        .filter(|o| o.level == level || is_ancestor(ix, o.level, level));
+                    let first = owners.next()?;
+                    // (a member of an adjacent group inside a cluster shares its word with
+                    // strangers: block positions are no longer words)
+                    if owners.next().is_some()
+                        || first.level != level
+                        || !first.is_flag
+                        || first.group.is_some()
+                    {
+                        return None;
+                    }
+                    members.push(first.id);
+                }
+                for id in members {
+                    *info.occurrences.entry(id).or_insert(0) += 1;
+                    info.spans.push((id, tok_start, i + 1));
+                }
+                info.clusters += 1;
+                i += 1;
+                continue;
             }
             let (it, attached) = hit?;
             if it.is_flag {
@@ -734,6 +854,10 @@ pub fn scan(ix: &Index, argv: &[Tok]) -> Option<LineInfo> {
                     return None;
                 }
             } else if attached.is_none() {
+                if it.adjacent_arg {
+                    // `--flag VAL` does not spell an adjacent-restricted argument
+                    return None;
+                }
                 // value is the next token
                 let v = argv.get(i + 1)?;
                 if v.first() == Some(&b'-') {
@@ -786,6 +910,17 @@ fn shares_name_with_ancestor(ix: &Index, it: &Item) -> bool {
     false
 }
 
+fn is_ancestor(ix: &Index, anc: usize, of: usize) -> bool {
+    let mut cur = ix.levels[of].parent;
+    while let Some(a) = cur {
+        if a == anc {
+            return true;
+        }
+        cur = ix.levels[a].parent;
+    }
+    false
+}
+
 fn value_token(r: &mut Rng, ty: Ty, invalid: bool) -> Tok {
     if invalid {
         return r
@@ -812,7 +947,7 @@ fn spell_item(r: &mut Rng, it: &Item, invalid: bool) -> Vec<Tok> {
         return vec![name];
     }
     let v = value_token(r, it.ty, invalid);
-    if r.chance(1, 2) {
+    if it.adjacent_arg || r.chance(1, 2) {
         let mut t = name;
         t.push(b'=');
         t.extend_from_slice(&v);
@@ -909,8 +1044,32 @@ pub fn gen_line(r: &mut Rng, o: &Opts, ix: &Index, allow_invalid: bool) -> Vec<T
             let j = r.below(i + 1);
             groups.swap(i, j);
         }
-        out.extend(groups.into_iter().flatten());
+        // sometimes fuse neighbouring single short flags into a cluster
+        let mut fused: Vec<Vec<Tok>> = Vec::new();
+        for g in groups {
+            let single_short = g.len() == 1
+                && g[0].len() == 2
+                && g[0][0] == b'-'
+                && g[0][1].is_ascii_alphabetic();
+            if single_short && r.chance(1, 3) {
+                if let Some(prev) = fused.last_mut() {
+                    if prev.len() == 1
+                        && prev[0].len() >= 2
+                        && prev[0][0] == b'-'
+                        && prev[0][1..].iter().all(|b| b.is_ascii_alphabetic())
+                    {
+                        prev[0].push(g[0][1]);
+                        continue;
+                    }
+                }
+            }
+            fused.push(g);
+        }
+        out.extend(fused.into_iter().flatten());
         if ix.levels[level].has_positional && r.chance(3, 4) {
+            if r.chance(1, 6) {
+                out.push(b"--".to_vec());
+            }
             out.push(b"file".to_vec());
         }
         let subs: Vec<usize> = ix
@@ -1502,6 +1661,45 @@ pub fn run_case(case: &Case, stats: &mut Stats) -> RunReport {
                                 | W::Collect { catch: true }
                         )
                     });
+                    // ---- R9: an item declared with variables only behaves like the same item
+                    // with an (unused) name added: same class, same value, whatever the state
+                    // of its variables
+                    if !named_item && it.ctx == Ctx::Simple && !has_catch && !usage_level_empty {
+                        let named_twin = map_leaf(&l.opts, it.id, &|n: &Named| {
+                            let mut n = n.clone();
+                            n.longs.push("renamed-y");
+                            n
+                        });
+                        let twin = Live {
+                            parser: exec::build_unchecked(&named_twin),
+                            ix: index(&named_twin),
+                            opts: named_twin,
+                        };
+                        let other = run_on(&twin, op);
+                        stats.bump("rule.R9.evaluated");
+                        let same = match (&first.outcome, &other.outcome) {
+                            (Outcome::Value(a), Outcome::Value(b)) => a == b,
+                            (a, b) => a.class() == b.class(),
+                        };
+                        if !same {
+                            violation!(
+                                "R9",
+                                opi,
+                                format!(
+                                    "rule=R9 classes={}/{} variable={}",
+                                    first.outcome.class(),
+                                    other.outcome.class(),
+                                    if set.is_some() { "set" } else { "unset" }
+                                ),
+                                format!(
+                                    "item {:?} has no name; giving it an unused one changes the outcome\nwithout a name: {}\nwith a name   : {}",
+                                    it.named,
+                                    describe(&first),
+                                    describe(&other)
+                                )
+                            );
+                        }
+                    }
                     match &set {
                         Some((_, v)) => {
                             // ---- R3: variable == typed value
@@ -1563,7 +1761,6 @@ pub fn run_case(case: &Case, stats: &mut Stats) -> RunReport {
                                 it.group,
                                 named_item
                                     && !has_catch
-                                    && !it.adjacent_arg
                                     && !usage_level_empty
                                     && !tainted
                                     && !shares_name_with_ancestor(&l.ix, it),
@@ -1676,7 +1873,6 @@ pub fn run_case(case: &Case, stats: &mut Stats) -> RunReport {
                             if it.ctx == Ctx::Simple
                                 && named_item
                                 && !has_catch
-                                && !it.adjacent_arg
                                 && !usage_level_empty
                                 && !tainted
                                 && !shares_name_with_ancestor(&l.ix, it)
